@@ -1,0 +1,234 @@
+//go:build verif
+
+// Machine-checked contracts (read by /verif/bin/fsv; comment-only, guarded by the verif tag).
+// C12: failure classification; C01/C16: the executor template (Apply / PostExecute / listeners).
+
+package policy
+
+// ---------------------------------------------------------------------------------------------
+// Assumed contracts of the matching primitives (trusted, listed in the evidence).
+//@ extfunc errors.Is
+//@   ensures result == ufb("errors.Is", err, target)
+//@   ensures err == nil && target != nil ==> !result
+//@   modifies nothing
+//@ extfunc reflect.DeepEqual
+//@   ensures result == ufb("reflect.DeepEqual", x, y)
+//@   modifies nothing
+//@ extfunc github.com/failsafe-go/failsafe-go/internal/util.ErrorTypesMatch
+//@   ensures result == ufb("ErrorTypesMatch", err, target)
+//@   ensures err == nil ==> !result
+//@   modifies nothing
+
+// Policy configuration is frozen once built (builders are documented as not concurrency safe).
+//@ frozen BaseFailurePolicy.errorsChecked, BaseFailurePolicy.failureConditions, BaseFailurePolicy.onSuccess, BaseFailurePolicy.onFailure
+//@ frozen BaseAbortablePolicy.abortConditions, BaseDelayablePolicy.Delay, BaseDelayablePolicy.DelayFunc
+//@ frozen BaseExecutor.Executor, BaseExecutor.BaseFailurePolicy
+
+// ---------------------------------------------------------------------------------------------
+// C12 -- IsFailure: the three documented cases.
+//@ func (*BaseFailurePolicy).IsFailure
+//@   purecalls
+//@   requires p != nil
+//@   requires forall j int :: 0 <= j && j < len(p.failureConditions) ==> p.failureConditions[j] != nil
+//@   let n := len(p.failureConditions)
+//@   let anyMatch := exists j int :: 0 <= j && j < n && appb(p.failureConditions[j], result, err)
+//@   ensures [C12.isfailure.none_configured] n == 0 ==> result_0 == (err != nil)
+//@   ensures [C12.isfailure.configured] n > 0 ==> result_0 == (anyMatch || (err != nil && !p.errorsChecked))
+//@   modifies nothing
+
+//@ func (*BaseAbortablePolicy).IsAbortable
+//@   purecalls
+//@   requires c != nil
+//@   requires forall j int :: 0 <= j && j < len(c.abortConditions) ==> c.abortConditions[j] != nil
+//@   ensures [C12.isabortable] result_0 == (exists j int :: 0 <= j && j < len(c.abortConditions) && appb(c.abortConditions[j], result, err))
+//@   modifies nothing
+
+//@ func (*BaseAbortablePolicy).IsConfigured
+//@   requires c != nil
+//@   ensures [C12.isconfigured] result == (len(c.abortConditions) > 0)
+//@   modifies nothing
+
+// The condition closures: what a registered condition computes.
+//@ func (*BaseFailurePolicy).HandleErrors$1
+//@   ensures [C12.cond.errors] result == ufb("errors.Is", actualErr, t)
+//@   modifies nothing
+//@ func (*BaseFailurePolicy).HandleErrorTypes$1
+//@   ensures [C12.cond.errortypes] result == ufb("ErrorTypesMatch", actualErr, t)
+//@   modifies nothing
+//@ func (*BaseFailurePolicy).HandleResult$1
+//@   ensures [C12.cond.result] result_0 == ufb("reflect.DeepEqual", r, result)
+//@   modifies nothing
+//@ func (*BaseAbortablePolicy).AbortOnErrors$1
+//@   ensures [C12.abort.errors] result_0 == ufb("errors.Is", actualErr, t)
+//@   modifies nothing
+//@ func (*BaseAbortablePolicy).AbortOnErrorTypes$1
+//@   ensures [C12.abort.errortypes] result_0 == ufb("ErrorTypesMatch", actualErr, t)
+//@   modifies nothing
+
+// Registration: one condition per argument, in order, each bound to its own target; earlier conditions are kept.
+//@ func (*BaseFailurePolicy).HandleErrors
+//@   requires p != nil
+//@   builder
+//@   oldlet n0 := len(p.failureConditions)
+//@   loop 0 invariant -1 <= rangeindex && rangeindex < len(errs) && len(p.failureConditions) == n0 + rangeindex + 1
+//@   loop 0 invariant forall j int :: 0 <= j && j < n0 ==> p.failureConditions[j] == old(p.failureConditions[j])
+//@   loop 0 invariant forall j int :: 0 <= j && j <= rangeindex ==> clofn(p.failureConditions[n0+j]) == fnid("(*BaseFailurePolicy).HandleErrors$1") && allocated(clobind(p.failureConditions[n0+j], 0)) && cellof(clobind(p.failureConditions[n0+j], 0), error) == errs[j]
+//@   loop 0 decreases len(errs) - rangeindex
+//@   ensures [C12.register.errors.count] len(p.failureConditions) == n0 + len(errs) && p.errorsChecked
+//@   ensures [C12.register.errors.kept] forall j int :: 0 <= j && j < n0 ==> p.failureConditions[j] == old(p.failureConditions[j])
+//@   ensures [C12.register.errors.bound] forall j int :: 0 <= j && j < len(errs) ==> clofn(p.failureConditions[n0+j]) == fnid("(*BaseFailurePolicy).HandleErrors$1") && cellof(clobind(p.failureConditions[n0+j], 0), error) == errs[j]
+//@   modifies p.failureConditions, p.errorsChecked
+
+//@ func (*BaseFailurePolicy).HandleErrorTypes
+//@   builder
+//@   requires p != nil
+//@   oldlet n0 := len(p.failureConditions)
+//@   loop 0 invariant -1 <= rangeindex && rangeindex < len(errs) && len(p.failureConditions) == n0 + rangeindex + 1
+//@   loop 0 invariant forall j int :: 0 <= j && j < n0 ==> p.failureConditions[j] == old(p.failureConditions[j])
+//@   loop 0 invariant forall j int :: 0 <= j && j <= rangeindex ==> clofn(p.failureConditions[n0+j]) == fnid("(*BaseFailurePolicy).HandleErrorTypes$1") && allocated(clobind(p.failureConditions[n0+j], 0)) && cellof(clobind(p.failureConditions[n0+j], 0), any) == errs[j]
+//@   loop 0 decreases len(errs) - rangeindex
+//@   ensures [C12.register.errortypes.count] len(p.failureConditions) == n0 + len(errs) && p.errorsChecked
+//@   ensures [C12.register.errortypes.kept] forall j int :: 0 <= j && j < n0 ==> p.failureConditions[j] == old(p.failureConditions[j])
+//@   ensures [C12.register.errortypes.bound] forall j int :: 0 <= j && j < len(errs) ==> clofn(p.failureConditions[n0+j]) == fnid("(*BaseFailurePolicy).HandleErrorTypes$1") && cellof(clobind(p.failureConditions[n0+j], 0), any) == errs[j]
+//@   modifies p.failureConditions, p.errorsChecked
+
+// HandleResult does not touch errorsChecked: the default "any error is a failure" stays in force.
+//@ func (*BaseFailurePolicy).HandleResult
+//@   builder
+//@   requires p != nil
+//@   oldlet n0 := len(p.failureConditions)
+//@   ensures [C12.register.result] len(p.failureConditions) == n0 + 1 && p.errorsChecked == old(p.errorsChecked) && clofn(p.failureConditions[n0]) == fnid("(*BaseFailurePolicy).HandleResult$1") && cellof(clobind(p.failureConditions[n0], 0), R) == result
+//@   ensures [C12.register.result.kept] forall j int :: 0 <= j && j < n0 ==> p.failureConditions[j] == old(p.failureConditions[j])
+//@   modifies p.failureConditions
+
+//@ func (*BaseFailurePolicy).HandleIf
+//@   builder
+//@   requires p != nil
+//@   oldlet n0 := len(p.failureConditions)
+//@   ensures [C12.register.if] len(p.failureConditions) == n0 + 1 && p.errorsChecked && p.failureConditions[n0] == predicate
+//@   ensures [C12.register.if.kept] forall j int :: 0 <= j && j < n0 ==> p.failureConditions[j] == old(p.failureConditions[j])
+//@   modifies p.failureConditions, p.errorsChecked
+
+//@ func (*BaseAbortablePolicy).AbortOnErrors
+//@   builder
+//@   requires c != nil
+//@   oldlet n0 := len(c.abortConditions)
+//@   loop 0 invariant -1 <= rangeindex && rangeindex < len(errs) && len(c.abortConditions) == n0 + rangeindex + 1
+//@   loop 0 invariant forall j int :: 0 <= j && j < n0 ==> c.abortConditions[j] == old(c.abortConditions[j])
+//@   loop 0 invariant forall j int :: 0 <= j && j <= rangeindex ==> clofn(c.abortConditions[n0+j]) == fnid("(*BaseAbortablePolicy).AbortOnErrors$1") && allocated(clobind(c.abortConditions[n0+j], 0)) && cellof(clobind(c.abortConditions[n0+j], 0), error) == errs[j]
+//@   loop 0 decreases len(errs) - rangeindex
+//@   ensures [C12.register.abort.errors] len(c.abortConditions) == n0 + len(errs) && (forall j int :: 0 <= j && j < len(errs) ==> clofn(c.abortConditions[n0+j]) == fnid("(*BaseAbortablePolicy).AbortOnErrors$1") && cellof(clobind(c.abortConditions[n0+j], 0), error) == errs[j])
+//@   ensures [C12.register.abort.errors.kept] forall j int :: 0 <= j && j < n0 ==> c.abortConditions[j] == old(c.abortConditions[j])
+//@   modifies c.abortConditions
+
+//@ func (*BaseAbortablePolicy).AbortOnErrorTypes
+//@   builder
+//@   requires c != nil
+//@   oldlet n0 := len(c.abortConditions)
+//@   loop 0 invariant -1 <= rangeindex && rangeindex < len(errs) && len(c.abortConditions) == n0 + rangeindex + 1
+//@   loop 0 invariant forall j int :: 0 <= j && j < n0 ==> c.abortConditions[j] == old(c.abortConditions[j])
+//@   loop 0 invariant forall j int :: 0 <= j && j <= rangeindex ==> clofn(c.abortConditions[n0+j]) == fnid("(*BaseAbortablePolicy).AbortOnErrorTypes$1") && allocated(clobind(c.abortConditions[n0+j], 0)) && cellof(clobind(c.abortConditions[n0+j], 0), any) == errs[j]
+//@   loop 0 decreases len(errs) - rangeindex
+//@   ensures [C12.register.abort.errortypes] len(c.abortConditions) == n0 + len(errs) && (forall j int :: 0 <= j && j < len(errs) ==> clofn(c.abortConditions[n0+j]) == fnid("(*BaseAbortablePolicy).AbortOnErrorTypes$1") && cellof(clobind(c.abortConditions[n0+j], 0), any) == errs[j])
+//@   modifies c.abortConditions
+
+//@ func (*BaseAbortablePolicy).AbortOnResult$1
+//@   ensures [C12.abort.result] result_0 == ufb("reflect.DeepEqual", r, result)
+//@   modifies nothing
+//@ func (*BaseAbortablePolicy).AbortOnResult
+//@   builder
+//@   requires c != nil
+//@   oldlet n0 := len(c.abortConditions)
+//@   ensures [C12.register.abort.result] len(c.abortConditions) == n0 + 1 && clofn(c.abortConditions[n0]) == fnid("(*BaseAbortablePolicy).AbortOnResult$1") && cellof(clobind(c.abortConditions[n0], 0), R) == result
+//@   modifies c.abortConditions
+
+// AbortIf wraps the predicate: the registered closure returns exactly what the predicate returns.
+//@ func (*BaseAbortablePolicy).AbortIf$1
+//@   purecalls
+//@   requires predicate != nil
+//@   ensures [C12.abort.if] result_0 == appb(predicate, result, err)
+//@   modifies nothing
+//@ func (*BaseAbortablePolicy).AbortIf
+//@   builder
+//@   requires c != nil
+//@   oldlet n0 := len(c.abortConditions)
+//@   ensures [C12.register.abort.if] len(c.abortConditions) == n0 + 1 && clofn(c.abortConditions[n0]) == fnid("(*BaseAbortablePolicy).AbortIf$1") && cellof(clobind(c.abortConditions[n0], 0), "func(R, error) bool") == predicate
+//@   modifies c.abortConditions
+
+// ---------------------------------------------------------------------------------------------
+// C01 / C16 -- the executor template. The hooks of e.Executor are calls into an unknown implementation
+// (trace contract over calls / arguments / results); every concrete policy executor is verified separately.
+
+//@ func (*BaseExecutor).PreExecute
+//@   ensures [C01.base.preexecute] result == nil
+//@   modifies nothing
+
+//@ func (*BaseExecutor).Apply$1
+//@   requires e != nil && e.Executor != nil && innerFn != nil
+//@   requires typeis(exec, *failsafe.execution)
+//@   ext pre := ret(e.Executor.PreExecute, 1)
+//@   ensures [C01.apply.pre_called] ncalls(e.Executor.PreExecute) == 1 && arg(e.Executor.PreExecute, 1, 0) == exec
+//@   ensures [C01.apply.rejected] pre != nil ==> result == pre && ncalls(innerFn) == 0 && ncalls(e.Executor.PostExecute) == 0
+//@   ensures [C01.apply.admitted] pre == nil ==> ncalls(innerFn) == 1 && arg(innerFn, 1, 0) == exec && ncalls(e.Executor.PostExecute) == 1 && arg(e.Executor.PostExecute, 1, 0) == exec && arg(e.Executor.PostExecute, 1, 1) == ret(innerFn, 1) && result == ret(e.Executor.PostExecute, 1)
+//@   ensures [C01.apply.order] pre == nil ==> tickof(e.Executor.PreExecute, 1) < tickof(innerFn, 1) && tickof(innerFn, 1) < tickof(e.Executor.PostExecute, 1)
+//@   havoc
+//@   modifies calls(e.Executor.PreExecute), calls(innerFn), calls(e.Executor.PostExecute)
+
+//@ func (*BaseExecutor).PostExecute
+//@   requires e != nil && e.Executor != nil && er != nil
+//@   ext isf := retb(e.Executor.IsFailure, 1)
+//@   ensures [C01.post.classify] ncalls(e.Executor.IsFailure) == 1 && arg(e.Executor.IsFailure, 1, 0) == er.Result && arg(e.Executor.IsFailure, 1, 1) == er.Error
+//@   let fr := cast(arg(e.Executor.OnFailure, 1, 1), *common.PolicyResult)
+//@   ensures [C01.post.failure+C16.post.failure] isf ==> ncalls(e.Executor.OnFailure) == 1 && ncalls(e.Executor.OnSuccess) == 0 && result == ret(e.Executor.OnFailure, 1) && arg(e.Executor.OnFailure, 1, 0) == exec && fr.Result == er.Result && fr.Error == er.Error && fr.Done == er.Done && !fr.Success && !fr.SuccessAll
+//@   ensures [C01.post.success+C16.post.success] !isf ==> ncalls(e.Executor.OnSuccess) == 1 && ncalls(e.Executor.OnFailure) == 0 && arg(e.Executor.OnSuccess, 1, 0) == exec && arg(e.Executor.OnSuccess, 1, 1) == result && result.Result == er.Result && result.Error == er.Error && result.Done && result.Success && result.SuccessAll == er.SuccessAll
+//@   havoc
+//@   modifies calls(e.Executor.IsFailure), calls(e.Executor.OnFailure), calls(e.Executor.OnSuccess)
+
+//@ func (*BaseExecutor).IsFailure
+//@   purecalls
+//@   requires e != nil
+//@   requires e.BaseFailurePolicy != nil ==> (forall j int :: 0 <= j && j < len(e.failureConditions) ==> e.failureConditions[j] != nil)
+//@   ensures [C12.base.default] e.BaseFailurePolicy == nil ==> result_0 == (err != nil)
+//@   ensures [C12.base.configured] e.BaseFailurePolicy != nil && len(e.failureConditions) == 0 ==> result_0 == (err != nil)
+//@   ensures [C12.base.conditions] e.BaseFailurePolicy != nil && len(e.failureConditions) > 0 ==> result_0 == ((exists j int :: 0 <= j && j < len(e.failureConditions) && appb(e.failureConditions[j], result, err)) || (err != nil && !e.errorsChecked))
+//@   modifies nothing
+
+//@ func (*BaseExecutor).OnSuccess
+//@   requires e != nil && exec != nil
+//@   let has := e.BaseFailurePolicy != nil && e.onSuccess != nil
+//@   ensures [C16.base.onsuccess] has ==> ncalls(e.onSuccess) == 1 && arg(e.onSuccess, 1, 0) == ret(exec.CopyWithResult, 1) && ncalls(exec.CopyWithResult) == 1 && arg(exec.CopyWithResult, 1, 0) == result
+//@   ensures [C16.base.onsuccess.none] !has ==> ncalls(exec.CopyWithResult) == 0
+//@   havoc
+//@   modifies calls(e.onSuccess), calls(exec.CopyWithResult)
+
+//@ func (*BaseExecutor).OnFailure
+//@   requires e != nil && exec != nil
+//@   let has := e.BaseFailurePolicy != nil && e.onFailure != nil
+//@   ensures [C16.base.onfailure] has ==> ncalls(e.onFailure) == 1 && arg(e.onFailure, 1, 0) == ret(exec.CopyWithResult, 1) && ncalls(exec.CopyWithResult) == 1 && arg(exec.CopyWithResult, 1, 0) == result
+//@   ensures [C16.base.onfailure.none] !has ==> ncalls(exec.CopyWithResult) == 0
+//@   ensures [C01.base.onfailure.identity] result_0 == result
+//@   havoc
+//@   modifies calls(e.onFailure), calls(exec.CopyWithResult)
+
+//@ func (*BaseDelayablePolicy).ComputeDelay
+//@   requires d != nil
+//@   ensures [C13.computedelay] (exec != nil && d.DelayFunc != nil) ==> ncalls(d.DelayFunc) == 1 && result == ret(d.DelayFunc, 1) && arg(d.DelayFunc, 1, 0) == exec
+//@   ensures [C13.computedelay.none] !(exec != nil && d.DelayFunc != nil) ==> result == -1 && ncalls(d.DelayFunc) == 0
+//@   havoc
+//@   modifies calls(d.DelayFunc)
+
+// The documented classification, as one expression (b is a *BaseExecutor).
+//@ macro isFailureOf(b, r, err) = ite(b.BaseFailurePolicy == nil, err != nil, ite(len(b.failureConditions) == 0, err != nil, (exists j int :: 0 <= j && j < len(b.failureConditions) && appb(b.failureConditions[j], r, err)) || (err != nil && !b.errorsChecked)))
+//@ macro condsWellFormed(b) = b.BaseFailurePolicy != nil ==> (forall j int :: 0 <= j && j < len(b.failureConditions) ==> b.failureConditions[j] != nil)
+
+// What the library relies on from an execution object (proved for the real *execution in package failsafe).
+//@ extfunc github.com/failsafe-go/failsafe-go/policy.ExecutionInternal.IsCanceledWithResult
+//@   modifies nothing
+//@   ensures result_0 ==> result_1 != nil
+//@   ensures !result_0 ==> result_1 == nil
+//@ extfunc github.com/failsafe-go/failsafe-go/policy.ExecutionInternal.CopyWithResult
+//@   modifies nothing
+//@   ensures result != nil
+// Condition slices are only appended to while building; their elements never change afterwards.
+//@ frozen elem:cell:func(result R, err error) bool
+//@ frozen elem:cell:func(A, B) bool
